@@ -139,6 +139,22 @@ Lemma arch_firstfile_ignores_entry_names :
   gen_uses_entry_name_firstfile = false.
 Proof. repeat split; reflexivity. Qed.
 
+(** The name that is checked is the name that is written: the containment test
+    judges one variable, that variable is assigned exactly once — the join of
+    the destination and the entry's raw name — and every path handed to a
+    writing call of the loop is that variable or its [filepath.Dir]. *)
+Definition all_in (allowed l : list string) : bool :=
+  forallb (fun a => existsb (String.eqb a) allowed) l.
+
+Lemma arch_checked_is_used :
+  gen_checked_expr_unzip = "name" /\ gen_checked_defs_unzip = ["filepath.Join(dir, f.Name)"] /\
+  all_in ["name"; "filepath.Dir(name)"] gen_write_paths_unzip = true /\
+  gen_checked_expr_untar = "dest" /\
+  gen_checked_defs_untar = ["filepath.Join(destDir, filepath.FromSlash(header.Name))"] /\
+  gen_dir_defs_untar = ["filepath.Dir(dest)"] /\
+  all_in ["dest"; "dir"] gen_write_paths_untar = true.
+Proof. repeat split; reflexivity. Qed.
+
 (** The containment test comes before anything that writes. *)
 Lemma arch_unzip_check_first : gen_check_first_unzip = true.
 Proof. reflexivity. Qed.
